@@ -5,7 +5,8 @@
    Part A: what a re-encoding leaves in the SAT session (exactly DynAttDefs.att_cnf, on a new session).
    Part B: the clause-set invariant over replays and re-encodings.
    Part C: a computed answer.   Part D: the cache.   Part E: every reachable state, the theorem. *)
-From Crusta Require Import Model.Dynamic Proofs.ProgLaws Proofs.EncBase Proofs.SolverBasics.
+From Crusta Require Import Model.Dynamic Spec.SemFacts Proofs.ProgLaws Proofs.EncBase Proofs.SolverBasics.
+From Crusta Require Import Proofs.GroundedProofs Proofs.TopMax.
 From Crusta Require Import Proofs.StoreBase Proofs.StoreProofs Proofs.DynDefs Proofs.DynBase Proofs.DynProofs
   Proofs.DynSafe Proofs.DynAttDefs Proofs.DynAttTables Proofs.DynAttEnc.
 From Coq Require Import Lia ZifyBool.
@@ -213,3 +214,405 @@ Proof.
       * rewrite Hc, cls_add, Hc1. cbn [seq flat_map]. unfold co_row2. rewrite <- !app_assoc. reflexivity.
       * rewrite Hn', nvars_add, Hn1. cbn [Nat.mul]. lia.
 Qed.
+
+Lemma wpT_okm {A} (m : Prog.M A) (P : A -> Prop) (Q : A -> Prog.st -> Prop) s :
+  okm m P -> wpT m Q s -> wpT m (fun a s' => P a /\ Q a s') s.
+Proof.
+  intros HP HQ. apply wpT_intro. intros a s' E. split; [exact (HP _ _ _ E)|exact (wpT_done _ _ _ _ _ HQ E)].
+Qed.
+Lemma wpT_panic {A} (Q : A -> Prog.st -> Prop) s : wpT (@panic A) Q s.
+Proof. exact I. Qed.
+
+(* ---- reading an assignment *)
+Lemma in_combine_seq_nth {A} (m : list A) : forall s v o,
+  In (v, o) (combine (seq s (length m)) m) <-> s <= v /\ nth_error m (v - s) = Some o.
+Proof.
+  induction m as [|x r IH]; intros s v o; cbn [length seq combine In].
+  - split; [intros []|intros [_ H]; destruct (v - s); discriminate H].
+  - rewrite IH. split.
+    + intros [E|[H1 H2]].
+      * injection E as <- <-. split; [lia|]. rewrite Nat.sub_diag. reflexivity.
+      * split; [lia|]. replace (v - s) with (S (v - S s)) by lia. exact H2.
+    + intros [H1 H2]. destruct (Nat.eq_dec v s) as [->|Hne].
+      * left. rewrite Nat.sub_diag in H2. cbn in H2. injection H2 as ->. reflexivity.
+      * right. split; [lia|]. replace (v - s) with (S (v - S s)) in H2 by lia. exact H2.
+Qed.
+
+Lemma in_vars_where p m v : In v (vars_where p m) <-> 1 <= v <= length m /\ p (value_of m v) = true.
+Proof.
+  unfold vars_where. rewrite in_map_iff. split.
+  - intros ([v' o] & E & Hin). cbn [fst] in E. subst v'. apply filter_In in Hin. destruct Hin as [Hin Hp].
+    cbn [snd] in Hp. apply in_combine_seq_nth in Hin. destruct Hin as [H1 H2].
+    pose proof (nth_error_lt _ _ _ H2). split; [lia|]. unfold value_of. rewrite (nth_error_nth _ _ None H2). exact Hp.
+  - intros [Hv Hp]. exists (v, value_of m v). split; [reflexivity|]. apply filter_In. split; [|exact Hp].
+    apply in_combine_seq_nth. split; [lia|]. unfold value_of. apply nth_error_nth'. lia.
+Qed.
+
+Lemma lit_true_zlit m v : 0 < v -> (lit_true m (zlit v) = true <-> value_of m v = Some true).
+Proof.
+  intros Hv. unfold lit_true. rewrite lit_var_zlit. replace (Z.ltb 0 (zlit v)) with true by (unfold zlit; lia).
+  destruct (value_of m v) as [[|]|]; split; congruence.
+Qed.
+Lemma lit_true_znlit m v : lit_true m (znlit v) = true <-> value_of m v = Some false.
+Proof.
+  unfold lit_true. rewrite lit_var_znlit. replace (Z.ltb 0 (znlit v)) with false by (unfold znlit; lia).
+  destruct (value_of m v) as [[|]|]; cbn; split; congruence.
+Qed.
+Lemma lit_true_negate_zlit m v : lit_true m (negate (zlit v)) = true <-> value_of m v = Some false.
+Proof. apply lit_true_znlit. Qed.
+
+Lemma models_in m C c : models m C = true -> In c C -> sat_clause m c = true.
+Proof. unfold models. rewrite forallb_forall. auto. Qed.
+Lemma sat_clause_cons m l c : sat_clause m (l :: c) = lit_true m l || sat_clause m c.
+Proof. reflexivity. Qed.
+Lemma sat_clause_nil m : sat_clause m [] = false.
+Proof. reflexivity. Qed.
+
+(* every slot variable is ASSIGNED by a (partial) assignment that satisfies the clauses: what makes
+   the "every argument not assigned false" cache of the solvers sound *)
+Lemma st_cnf_total n m a : models m (att_st_cnf n) = true -> 1 <= a <= n -> value_of m a <> None.
+Proof.
+  intros Hm Ha.
+  assert (Hrow : forall c, In c (st_row n (n * (1 + n)) a) -> sat_clause m c = true).
+  { intros c Hc. apply (models_in m _ c Hm). unfold att_st_cnf. apply in_flat_map. exists a. split; [apply in_seq1; exact Ha|exact Hc]. }
+  set (base := n * (1 + n)) in *.
+  assert (Hfin : sat_clause m (zlit a :: map (fun b => zlit (att_aux base n a b)) (seq 1 n)) = true).
+  { apply Hrow. unfold st_row. apply in_or_app. right. left. reflexivity. }
+  rewrite sat_clause_cons in Hfin. apply orb_true_iff in Hfin. destruct Hfin as [H|H].
+  { apply lit_true_zlit in H; [congruence|lia]. }
+  unfold sat_clause in H. apply existsb_exists in H. destruct H as (l & Hl & Hlt).
+  apply in_map_iff in Hl. destruct Hl as (b & <- & Hb).
+  assert (Hcell : forall c, In c (st_cell n base a b) -> sat_clause m c = true).
+  { intros c Hc. apply Hrow. unfold st_row. apply in_or_app. left. apply in_flat_map. exists b. auto. }
+  apply in_seq1 in Hb. apply lit_true_zlit in Hlt; [|apply att_aux_pos; lia].
+  unfold st_cell in Hcell. cbv zeta in Hcell. rewrite att_lit_v in Hcell.
+  pose proof (Hcell _ (or_introl eq_refl)) as C1.
+  pose proof (Hcell _ (or_intror (or_introl eq_refl))) as C2.
+  pose proof (Hcell _ (or_intror (or_intror (or_intror (or_introl eq_refl))))) as C4.
+  rewrite !sat_clause_cons, sat_clause_nil, orb_false_r in C1.
+  rewrite !sat_clause_cons, sat_clause_nil, orb_false_r in C2.
+  rewrite !sat_clause_cons, sat_clause_nil, orb_false_r in C4.
+  assert (Hv : 0 < att_v n a b) by (unfold att_v; lia).
+  apply orb_true_iff in C1. destruct C1 as [C1|C1]; [apply lit_true_negate_zlit in C1; congruence|].
+  apply lit_true_zlit in C1; [|lia].
+  apply orb_true_iff in C2. destruct C2 as [C2|C2]; [apply lit_true_negate_zlit in C2; congruence|].
+  apply lit_true_zlit in C2; [|exact Hv].
+  apply orb_true_iff in C4. destruct C4 as [C4|C4]; [apply lit_true_negate_zlit in C4; congruence|].
+  apply orb_true_iff in C4. destruct C4 as [C4|C4]; [apply lit_true_znlit in C4; congruence|].
+  apply lit_true_negate_zlit in C4. congruence.
+Qed.
+
+Lemma co_cnf_total n m a : models m (att_co_cnf n) = true -> 1 <= a <= n -> value_of m a <> None.
+Proof.
+  intros Hm Ha. set (base := n * (2 + n)).
+  assert (Hrow : forall c, In c (co_row1 n base a) -> sat_clause m c = true).
+  { intros c Hc. apply (models_in m _ c Hm). unfold att_co_cnf. apply in_or_app. left.
+    apply in_flat_map. exists a. split; [apply in_seq1; exact Ha|exact Hc]. }
+  assert (Hfin : sat_clause m (zlit a :: map (fun b => zlit (att_aux base n a b)) (seq 1 n)) = true).
+  { apply Hrow. unfold co_row1. right. apply in_or_app. right. left. reflexivity. }
+  rewrite sat_clause_cons in Hfin. apply orb_true_iff in Hfin. destruct Hfin as [H|H].
+  { apply lit_true_zlit in H; [congruence|lia]. }
+  unfold sat_clause in H. apply existsb_exists in H. destruct H as (l & Hl & Hlt).
+  apply in_map_iff in Hl. destruct Hl as (b & <- & Hb).
+  assert (Hcell : forall c, In c (co_cell1 n base a b) -> sat_clause m c = true).
+  { intros c Hc. apply Hrow. unfold co_row1. right. apply in_or_app. left. apply in_flat_map. exists b. auto. }
+  apply in_seq1 in Hb. apply lit_true_zlit in Hlt; [|apply att_aux_pos; lia].
+  unfold co_cell1 in Hcell. cbv zeta in Hcell. rewrite att_lit_v, disj_of_v in Hcell.
+  pose proof (Hcell _ (or_introl eq_refl)) as C1.
+  pose proof (Hcell _ (or_intror (or_introl eq_refl))) as C2.
+  pose proof (Hcell _ (or_intror (or_intror (or_intror (or_introl eq_refl))))) as C4.
+  rewrite !sat_clause_cons, sat_clause_nil, orb_false_r in C1.
+  rewrite !sat_clause_cons, sat_clause_nil, orb_false_r in C2.
+  rewrite !sat_clause_cons, sat_clause_nil, orb_false_r in C4.
+  assert (Hv : 0 < att_v n a b) by (unfold att_v; lia).
+  assert (Hd : 0 < disj_v n b) by (unfold disj_v; lia).
+  apply orb_true_iff in C1. destruct C1 as [C1|C1]; [apply lit_true_negate_zlit in C1; congruence|].
+  apply lit_true_negate_zlit in C1.
+  apply orb_true_iff in C2. destruct C2 as [C2|C2]; [apply lit_true_negate_zlit in C2; congruence|].
+  apply lit_true_zlit in C2; [|exact Hv].
+  apply orb_true_iff in C4. destruct C4 as [C4|C4]; [apply lit_true_negate_zlit in C4; congruence|].
+  apply orb_true_iff in C4. destruct C4 as [C4|C4]; [apply lit_true_znlit in C4; congruence|].
+  apply lit_true_zlit in C4; [congruence|exact Hd].
+Qed.
+
+Lemma att_cnf_total sm n m a : models m (att_cnf sm n) = true -> 1 <= a <= n -> value_of m a <> None.
+Proof. destruct sm; cbn [att_cnf]; [apply co_cnf_total|apply st_cnf_total|apply co_cnf_total]. Qed.
+
+Section Fun.
+Variable L : Type.
+Variable leqb : L -> L -> bool.
+Hypothesis leqb_spec : forall x y, leqb x y = true <-> x = y.
+
+Notation fw := (fw L).
+Notation Inv := (Inv L).
+Notation get_argument := (get_argument L leqb).
+Notation att_tables_ok := (att_tables_ok L).
+Notation att_pre := (att_pre L).
+
+(* a re-encoding opens a new session and leaves exactly att_cnf in it *)
+Lemma att_update_encoding_cls (af : fw) e s :
+  a_need e = true ->
+  wpT (att_update_encoding L af e) (fun e' s' => cls s' = att_cnf (a_sem e') (a_n e')) s.
+Proof.
+  intros Hneed. unfold att_update_encoding. rewrite Hneed. cbn [negb].
+  set (n := n_arguments L af * a_num e / a_den e).
+  destruct (a_sem e) eqn:Es.
+  - rewrite wp_bind, wp_new_solver, wp_bind, wp_reserve.
+    destruct (Nat.ltb n (n_arguments L af)); [apply wpT_panic|].
+    rewrite wp_bind. apply (co_rows1_wp n (n * (2 + n))); [lia|lia|lia|unfold att_aux; cbn; lia|].
+    intros s1 Hc1 Hn1. rewrite wp_bind.
+    apply (co_rows2_wp n (n * (2 + n) + n * n)); [lia|lia|lia| |].
+    { rewrite Hn1. unfold att_aux. cbn. lia. }
+    intros s2 Hc2 Hn2. rewrite wp_ret. cbn [aenc_with a_sem a_n]. rewrite Es, Hc2, Hc1.
+    unfold att_cnf, att_co_cnf. rewrite cls_reserve, cls_new. reflexivity.
+  - rewrite wp_bind, wp_new_solver, wp_bind, wp_reserve.
+    destruct (Nat.ltb n (n_arguments L af)); [apply wpT_panic|].
+    rewrite wp_bind. apply (st_rows_wp n (n * (1 + n))); [lia|lia|lia|unfold att_aux; cbn; lia|].
+    intros s1 Hc1 Hn1. rewrite wp_ret. cbn [aenc_with a_sem a_n]. rewrite Es, Hc1.
+    unfold att_cnf, att_st_cnf. rewrite cls_reserve, cls_new. reflexivity.
+  - apply wpT_panic.
+Qed.
+
+(* ================================================================ Part B *)
+(* besides att_cnf the session only holds the unit clauses [v] of slots v given up by removed
+   arguments: handed out, no longer anybody's variable *)
+Definition dead_units (e : aenc) (D : cnf) : Prop :=
+  forall c, In c D -> exists v, c = [zlit v] /\ 1 <= v /\ v < a_next e /\
+                                forall id, tbl_var (a_a2v e) id <> Some v.
+Definition clause_inv (e : aenc) (s : Prog.st) : Prop :=
+  exists D, cls s = att_cnf (a_sem e) (a_n e) ++ D /\ dead_units e D.
+Definition clause_pre (e : aenc) (s : Prog.st) : Prop := a_need e = true \/ clause_inv e s.
+
+Lemma att_new_argument_clauses af e l s :
+  clause_pre e s -> wpT (att_new_argument L leqb af e l) (fun r s' => clause_pre (snd r) s') s.
+Proof.
+  intros Hc. unfold att_new_argument. destruct (get_argument af l); [rewrite wp_ret; exact Hc|].
+  destruct (a_need e || Nat.leb (a_n e) (a_next e)) eqn:En; [rewrite wp_ret; left; reflexivity|].
+  apply orb_false_iff in En. destruct En as [En1 En2].
+  destruct Hc as [Hn|(D & Hcl & Hd)]; [congruence|].
+  assert (G : forall vars', clause_pre (aenc_with e (a_a2v e ++ [Some (a_next e)]) vars' (S (a_next e)) (a_n e) false) s).
+  { intros vars'. right. exists D. cbn [aenc_with a_sem a_n a_next a_a2v]. split; [exact Hcl|].
+    intros c Hin. destruct (Hd c Hin) as (v & -> & H1 & H2 & H3). exists v. cbn [aenc_with a_next a_a2v]. split; [reflexivity|].
+    split; [exact H1|]. split; [lia|]. intros id.
+    destruct (Nat.lt_total id (length (a_a2v e))) as [Hid|[->|Hid]].
+    - rewrite tbl_var_snoc_old by exact Hid. apply H3.
+    - rewrite tbl_var_snoc_new. intros E. injection E as E. lia.
+    - rewrite tbl_var_snoc_beyond by exact Hid. discriminate. }
+  destruct (max_argument_id L _); [|apply wpT_panic].
+  destruct (Nat.ltb _ _); [|apply wpT_panic].
+  destruct (a_sem e); try (rewrite wp_ret; apply G).
+  destruct (Nat.ltb _ _); [rewrite wp_ret; apply G|apply wpT_panic].
+Qed.
+
+Lemma att_remove_argument_clauses af e l s :
+  att_pre af e -> clause_pre e s ->
+  wpT (att_remove_argument L leqb af e l) (fun r s' => clause_pre (snd (fst r)) s') s.
+Proof.
+  intros Hp Hc. unfold att_remove_argument. destruct (get_argument af l) as [id|]; [|rewrite wp_ret; exact Hc].
+  destruct (Store.remove_argument L leqb af l) as [af' [| |]]; try (rewrite wp_ret; exact Hc).
+  destruct (Nat.ltb id (length (a_a2v e))) eqn:Elt; [|rewrite wp_ret; exact Hc]. apply Nat.ltb_lt in Elt.
+  destruct (nth id (a_a2v e) None) as [v|] eqn:Env; [|rewrite wp_ret; exact Hc].
+  assert (Hv : tbl_var (a_a2v e) id = Some v).
+  { unfold tbl_var. rewrite (nth_error_nth' _ None Elt), Env. reflexivity. }
+  destruct (Nat.ltb v (length (a_vars e))); [|apply wpT_panic].
+  rewrite wp_bind, wp_add_clause, wp_ret. cbn [fst snd].
+  destruct Hc as [Hn|(D & Hcl & Hd)]; [left; exact Hn|].
+  destruct Hp as [[Hn _]|Ht].
+  { left. exact Hn. }
+  right. exists (D ++ [[zlit v]]). cbn [aenc_with a_sem a_n a_next a_a2v]. split.
+  - rewrite cls_add, Hcl, app_assoc. reflexivity.
+  - intros c Hin. apply in_app_or in Hin. destruct Hin as [Hin|[<-|[]]].
+    + destruct (Hd c Hin) as (v0 & -> & H1 & H2 & H3). exists v0. cbn [aenc_with a_next a_a2v]. repeat split; auto.
+      intros id'. destruct (Nat.eq_dec id' id) as [->|Hne].
+      * rewrite tbl_var_set_eq by exact Elt. discriminate.
+      * rewrite tbl_var_set_neq by auto. apply H3.
+    + destruct (at_arg L af e Ht id v Hv) as (A & B & _). exists v. cbn [aenc_with a_next a_a2v]. repeat split; auto.
+      intros id'. destruct (Nat.eq_dec id' id) as [->|Hne].
+      * rewrite tbl_var_set_eq by exact Elt. discriminate.
+      * rewrite tbl_var_set_neq by auto. intros E. apply Hne. eapply (tables_inj L); eassumption.
+Qed.
+
+Lemma att_replay_clauses af e ev s :
+  att_pre af e -> clause_pre e s ->
+  wpT (att_replay L leqb (af, e) ev) (fun st s' => clause_pre (snd st) s') s.
+Proof.
+  intros Hp Hc. unfold att_replay. destruct ev as [l|l|a b|a b|x y z|x y z].
+  - apply att_new_argument_clauses. exact Hc.
+  - rewrite wp_bind. eapply wp_mono; [|apply att_remove_argument_clauses; eassumption].
+    intros r s' Hr. destruct r as [p [| |]]; cbn [unwrap_ok]; try apply wpT_panic. rewrite wp_ret. exact Hr.
+  - destruct (Store.new_attack L leqb af a b) as [p [| |]]; cbn [unwrap_ok]; rewrite wp_bind; try apply wpT_panic.
+    rewrite !wp_ret. exact Hc.
+  - destruct (Store.remove_attack L leqb af a b) as [p [| |]]; cbn [unwrap_ok]; rewrite wp_bind; try apply wpT_panic.
+    rewrite !wp_ret. exact Hc.
+  - rewrite wp_ret. exact Hc.
+  - rewrite wp_ret. exact Hc.
+Qed.
+
+Lemma fold_att_replay_clauses evs : forall af e s,
+  Inv af -> att_pre af e -> clause_pre e s ->
+  wpT (fold_m (att_replay L leqb) evs (af, e)) (fun st s' => clause_pre (snd st) s') s.
+Proof.
+  induction evs as [|ev r IH]; intros af e s Hinv Hp Hc; cbn [fold_m].
+  - rewrite wp_ret. exact Hc.
+  - rewrite wp_bind.
+    eapply wp_mono; [|apply (wpT_okm _ _ _ _ (att_replay_ok L leqb leqb_spec af e ev Hinv Hp)
+                                       (att_replay_clauses af e ev s Hp Hc))].
+    intros [af1 e1] s1 [(H1 & H2 & _) H3]. cbn [fst snd] in *. apply IH; assumption.
+Qed.
+
+Lemma update_encoding_clauses k af b s :
+  Inv af -> att_inv L leqb k af b ->
+  (forall e, b_enc L b = XAtt e -> clause_pre e s) ->
+  wpT (update_encoding L leqb af b)
+      (fun r s' => exists e', b_enc L (snd r) = XAtt e' /\ clause_inv e' s') s.
+Proof.
+  intros Hinv (e & He & Hpar & Hst) Hc. unfold update_encoding. rewrite He.
+  assert (Hp : att_pre af e) by (destruct Hst as [Hi|Ht]; [apply (initial_pre L leqb); exact Hi|right; exact Ht]).
+  rewrite wp_bind.
+  eapply wp_mono; [|apply (fold_att_replay_clauses _ af e s Hinv Hp (Hc e He))].
+  intros [af' e'] s1 Hc1. cbn [fst snd] in *. rewrite wp_bind.
+  destruct (a_need e') eqn:En.
+  - eapply wp_mono; [|apply (att_update_encoding_cls af' e' s1 En)].
+    intros e'' s2 Hcl. rewrite wp_ret. cbn [snd buf_with b_enc]. exists e''. split; [reflexivity|].
+    exists []. rewrite app_nil_r. split; [exact Hcl|]. intros c [].
+  - unfold att_update_encoding. rewrite En. cbn [negb]. rewrite !wp_ret. cbn [snd buf_with b_enc].
+    exists e'. split; [reflexivity|]. destruct Hc1 as [Hn|Hi]; [congruence|exact Hi].
+Qed.
+
+(* ================================================================ Part C *)
+Definition avd (e : aenc) (id : nat) : nat := match tbl_var (a_a2v e) id with Some v => v | None => 0 end.
+Definition sem_of (d : dsem) : sem := match d with DST => ST | _ => CO end.
+
+Lemma att_indices_idx e atts : forall idx,
+  att_indices e atts = Some idx -> idx = idx_of_atts (a_n e) atts (avd e).
+Proof.
+  induction atts as [|[from to] r IH]; intros idx H; cbn [att_indices] in H.
+  - injection H as <-. reflexivity.
+  - destruct (tbl_var (a_a2v e) to) as [vt|] eqn:Et; [|discriminate].
+    destruct (tbl_var (a_a2v e) from) as [vf|] eqn:Ef; [|discriminate].
+    destruct (att_indices e r) as [l|]; [|discriminate].
+    destruct (Nat.ltb _ _); [|discriminate]. injection H as <-.
+    unfold idx_of_atts. cbn [map fst snd]. unfold avd at 1 2. rewrite Et, Ef. f_equal. apply IH. reflexivity.
+Qed.
+
+Lemma in_args_where af e p m id : att_tables_ok af e ->
+  (In id (args_where p (a_vars e) m) <->
+   exists v, tbl_var (a_a2v e) id = Some v /\ 1 <= v <= length m /\ p (value_of m v) = true).
+Proof.
+  intros Ht. unfold args_where. rewrite in_filter_map. split.
+  - intros (v & Hv & Hf). apply in_vars_where in Hv. unfold var_to_arg in Hf.
+    destruct (nth_error (a_vars e) v) as [[i| | | |]|] eqn:E; try discriminate. injection Hf as ->.
+    exists v. split; [apply (at_conv L af e Ht); exact E|exact Hv].
+  - intros (v & Hv & Hr & Hp). exists v. split; [apply in_vars_where; auto|].
+    unfold var_to_arg. destruct (at_arg L af e Ht id v Hv) as (_ & _ & ->). reflexivity.
+Qed.
+Lemma args_where_nodup af e p m : att_tables_ok af e -> NoDup (args_where p (a_vars e) m).
+Proof.
+  intros Ht. unfold args_where, vars_where.
+  apply filter_map_NoDup; [apply NoDup_fst_filter_combine, seq_NoDup|].
+  intros a b y _ _ Ha Hb. unfold var_to_arg in Ha, Hb.
+  destruct (nth_error (a_vars e) a) as [[ia| | | |]|] eqn:Ea; try discriminate. injection Ha as ->.
+  destruct (nth_error (a_vars e) b) as [[ib| | | |]|] eqn:Eb; try discriminate. injection Hb as ->.
+  pose proof (at_conv L af e Ht _ _ Ea). pose proof (at_conv L af e Ht _ _ Eb). congruence.
+Qed.
+
+Section Answer.
+Variable af : fw.
+Variable e : aenc.
+Hypothesis Hinv : Inv af.
+Hypothesis Ht : att_tables_ok af e.
+Notation n := (a_n e).
+Notation ids := (live_ids L af).
+Notation atts := (iter_attacks L af).
+Notation F := (af_of L af).
+Notation av := (avd e).
+
+Lemma avd_live id : In id ids -> tbl_var (a_a2v e) id = Some (av id).
+Proof.
+  intros H. apply (live_ids_has L af id Hinv) in H. apply (at_live L af e Ht) in H.
+  unfold avd. destruct (tbl_var (a_a2v e) id); congruence.
+Qed.
+Lemma avd_some id v : tbl_var (a_a2v e) id = Some v -> In id ids /\ av id = v.
+Proof.
+  intros H. split.
+  - apply (live_ids_has L af id Hinv). apply (at_live L af e Ht). congruence.
+  - unfold avd. rewrite H. reflexivity.
+Qed.
+Lemma av_range id : In id ids -> 1 <= av id <= n.
+Proof. intros H. apply (tables_var_le L af e id _ Ht). apply avd_live. exact H. Qed.
+Lemma av_inj a b : In a ids -> In b ids -> av a = av b -> a = b.
+Proof.
+  intros Ha Hb E. apply avd_live in Ha, Hb. rewrite E in Ha. eapply (tables_inj L); eassumption.
+Qed.
+Lemma atts_live a b : In (a, b) atts -> In a ids /\ In b ids.
+Proof.
+  intros H. destruct (iter_attacks_live L af a b Hinv H) as [Ha Hb].
+  split; apply (live_ids_has L af _ Hinv); assumption.
+Qed.
+
+Variable s : Prog.st.
+Hypothesis Hcl : clause_inv e s.
+Variable idx : list nat.
+Hypothesis Hidx : att_indices e atts = Some idx.
+
+Lemma asm_assumed (v : val) : forallb (vtrue v) (att_asm n idx) = true <-> assumed n (slot_att atts av) v.
+Proof. rewrite (att_indices_idx e atts idx Hidx). apply (att_asm_assumed n ids atts av av_range atts_live). Qed.
+
+(* a SAT answer *)
+Lemma model_extension (m : assignment) :
+  models m (cls s) = true -> forallb (lit_true m) (att_asm n idx) = true ->
+  let X := dyn_a2e (a_vars e) m in
+  ext (sem_of (a_sem e)) F X /\ NoDup X /\ incl X (args F) /\
+  (forall id, In id X <-> In id ids /\ val_of m (av id) = true) /\
+  (forall id, In id ids -> value_of m (av id) <> None).
+Proof.
+  intros Hm Ha X. destruct Hcl as (D & Hc & Hd). rewrite Hc in Hm. unfold models in Hm.
+  rewrite forallb_app in Hm. apply andb_prop in Hm. destruct Hm as [Hm _]. fold (models m (att_cnf (a_sem e) n)) in Hm.
+  pose proof (models_vmodels _ _ Hm) as Hv. apply all_true_vtrue in Ha. apply asm_assumed in Ha.
+  assert (Hmem : forall id, In id X <-> In id ids /\ val_of m (av id) = true).
+  { intros id. unfold X. change (dyn_a2e (a_vars e) m) with (args_where is_some_true (a_vars e) m).
+    rewrite (in_args_where af e _ m id Ht). split.
+    - intros (v & Hv1 & _ & Hp). destruct (avd_some id v Hv1) as [Hi ->]. split; [exact Hi|].
+      unfold val_of. destruct (value_of m v) as [[|]|]; cbn in Hp; congruence.
+    - intros [Hi Hp]. exists (av id). split; [apply avd_live; exact Hi|].
+      pose proof (av_range id Hi). split; [split; [lia|apply val_of_true_bound; [lia|exact Hp]]|].
+      unfold val_of in Hp. destruct (value_of m (av id)) as [[|]|]; cbn; congruence. }
+  assert (Hseq : seteq (S_of ids av (val_of m)) X).
+  { intros a. rewrite in_S_of, Hmem. reflexivity. }
+  split; [|split; [|split; [|split]]].
+  - destruct (a_sem e) eqn:Es; cbn [sem_of ext att_cnf] in *.
+    + eapply co_seteq; [exact Hseq|]. apply (att_co_sound n ids atts av av_range av_inj atts_live); assumption.
+    + eapply st_seteq; [exact Hseq|]. apply (att_st_sound n ids atts av av_range av_inj atts_live); assumption.
+    + eapply co_seteq; [exact Hseq|]. apply (att_co_sound n ids atts av av_range av_inj atts_live); assumption.
+  - apply (args_where_nodup af e _ m Ht).
+  - intros id Hid. apply Hmem in Hid. exact (proj1 Hid).
+  - exact Hmem.
+  - intros id Hid. apply (att_cnf_total (a_sem e) n m); [exact Hm|apply av_range; exact Hid].
+Qed.
+
+(* an extension gives a valuation of everything the session holds *)
+Lemma extension_model X :
+  ext (sem_of (a_sem e)) F X ->
+  exists v : val, vmodels v (cls s) = true /\ forallb (vtrue v) (att_asm n idx) = true /\
+    forall id, In id ids -> (v (av id) = true <-> In id X).
+Proof.
+  intros HX. destruct Hcl as (D & Hc & Hd).
+  assert (G : forall v : val, vmodels v (att_cnf (a_sem e) n) = true -> assumed n (slot_att atts av) v ->
+            (forall id, In id ids -> (v (av id) = true <-> In id X)) ->
+            (forall x, 1 <= x <= n -> (forall a, In a ids -> av a <> x) -> v x = true) ->
+            exists v : val, vmodels v (cls s) = true /\ forallb (vtrue v) (att_asm n idx) = true /\
+              forall id, In id ids -> (v (av id) = true <-> In id X)).
+  { intros v H1 H2 H3 H4. exists v. split; [|split; [apply asm_assumed; exact H2|exact H3]].
+    rewrite Hc, vmodels_app, H1. cbn [andb]. apply vmodels_forall. intros c Hin.
+    destruct (Hd c Hin) as (x & -> & A & B & C). rewrite vsat_single, vtrue_zlit by lia.
+    pose proof (at_next L af e Ht). apply H4; [lia|].
+    intros a Ha E. apply (C a). rewrite (avd_live a Ha), E. reflexivity. }
+  destruct (a_sem e) eqn:Es; cbn [sem_of ext att_cnf] in *.
+  - destruct (att_co_complete n ids atts av av_range av_inj atts_live X HX) as (H1 & H2 & H3 & H4). eapply G; eassumption.
+  - destruct (att_st_complete n ids atts av av_range av_inj atts_live X HX) as (H1 & H2 & H3 & H4). eapply G; eassumption.
+  - destruct (att_co_complete n ids atts av av_range av_inj atts_live X HX) as (H1 & H2 & H3 & H4). eapply G; eassumption.
+Qed.
+
+End Answer.
+
+End Fun.
